@@ -11,13 +11,13 @@ package main
 // contract identifier denotes.
 
 import (
-	"regexp"
 	"encoding/json"
 	"fmt"
 	"go/token"
 	"go/types"
 	"os"
 	"path/filepath"
+	"regexp"
 	"sort"
 	"strings"
 
@@ -36,7 +36,7 @@ type fnInfo struct {
 	Locals []varInfo `json:"locals,omitempty"`
 	Free   []varInfo `json:"free,omitempty"`
 	FP     string    `json:"fp"`
-	Anon   []string  `json:"anon,omitempty"` // directly nested closures, in ssa order (raw names)
+	Anon   []string  `json:"anon,omitempty"`   // directly nested closures, in ssa order (raw names)
 	MutPar []string  `json:"mutpar,omitempty"` // parameters that the function itself reassigns or writes into
 }
 
